@@ -440,8 +440,9 @@ func mustFail(v interface{}, nm map[string]string, wide bool) string {
 // c13Good is a small representable value encoded after every refusal; its encoding is context-free.
 var cfgAnchor int
 
-var c13Good = []interface{}{"after", int32(7), true}
-var c13GoodBytes = []byte{0x58, 0x93, 0x05, 'a', 'f', 't', 'e', 'r', 0x97, 'T'}
+// (it ends in a map of an unnamed type: whatever name a refused value left in the name map must not turn it into a typed one)
+var c13Good = []interface{}{"after", int32(7), true, map[string]int32{"k": 1}}
+var c13GoodBytes = []byte{0x58, 0x94, 0x05, 'a', 'f', 't', 'e', 'r', 0x97, 'T', 'H', 0x01, 'k', 0x91, 'Z'}
 
 func TestC13(t *testing.T) {
 	r := rec.For("C13")
